@@ -36,7 +36,25 @@ TMP = None
 def setup(ctx):
     global TMP
     TMP = tempfile.mkdtemp(prefix="c05_")
+    register_titled_directive()
     mon.start_reach(ctx)
+
+
+def register_titled_directive():
+    """A third-party style directive that nested-parses its body with match_titles=True (what Sphinx' ``only`` does):
+    headings inside it may open sections *under its own node*; the surrounding section structure must not change."""
+    from docutils import nodes
+    from docutils.parsers.rst import Directive, directives
+
+    class Titled(Directive):
+        has_content = True
+
+        def run(self):
+            node = nodes.container(classes=["mv-titled"])
+            self.state.nested_parse(self.content, self.content_offset, node, match_titles=True)
+            return [node]
+
+    directives.register_directive("mv-titled", Titled)
 
 
 def teardown(ctx):
@@ -131,6 +149,13 @@ def build(case):
             lines += in_container(it[1], inner) + [""]
             rubrics[m] = it[2]
             order += [m, f"ip{n}"]
+        elif k == "t":
+            # headings inside a match_titles directive: allowed to make sections below the directive's node only
+            inner = []
+            for j, L in enumerate(it[1]):
+                hline[f"tb{n}x{j}"] = len(lines) + 1 + len(inner) + 1
+                inner += ["#" * L + f" tb{n}x{j}", "", f"tq{n}x{j} inside titled", ""]
+            lines += ["````{mv-titled}"] + inner + ["````", ""]
         elif k == "p":
             m = f"pp{n}"
             lines += [m + " text", ""]
@@ -194,7 +219,18 @@ def eval_case(ctx, case):
             ctx.violation("parent:section-missing", f"heading {m} produced no section", case, detail)
         elif seen[m] != p:
             ctx.violation("parent:wrong-parent", f"section {m} is under {seen[m]}, model says {p}", case, {**detail, "observed": seen, "model": exp_parent})
+    for sec in doc.findall(nodes.section):
+        t0 = sec[0].astext().split()[0] if len(sec) and sec[0].astext().split() else ""
+        if t0.startswith("tb"):
+            p_ = sec.parent
+            while p_ is not None and not (isinstance(p_, nodes.container) and "mv-titled" in p_.get("classes", [])):
+                p_ = p_.parent
+            if p_ is None:
+                ctx.violation("titled:section-escaped-directive", f"section {t0} created inside a match_titles directive is not below that directive's node", case, detail)
+            ctx.count("titled_sections_checked")
     for m in seen:
+        if m.startswith("tb"):
+            continue
         if m not in exp_parent:
             key = "rubric:nested-heading-opened-section" if m in rubrics else "parent:unexpected-section"
             ctx.violation(key, f"unexpected section titled {m}", case, detail)
@@ -245,7 +281,9 @@ def eval_case(ctx, case):
         if got != sec_m:
             ctx.violation("content:wrong-section", f"marker {m} is inside section {got}, expected {sec_m}", case, {**detail, "observed_sections": seen})
     # --- warnings
-    recs = [w for w in drive.split_warnings(wtext) if HDR.search(w["msg"])]
+    # [myst.header] warnings of headings inside a match_titles directive belong to that directive's own little hierarchy: not modelled
+    tb_lines = {l for m_, l in hline.items() if m_.startswith("tb")}
+    recs = [w for w in drive.split_warnings(wtext) if HDR.search(w["msg"]) and not (w["line"] in tb_lines and w["src"].endswith("doc.md"))]
     got_w = sorted(((w["msg"].split(" [myst.header]")[0], w["line"] if hline_known(hline, w) else None) for w in recs), key=repr)
     exp_w = sorted(((msg, hline.get(m)) for m, msg in exp_warns), key=repr)
     if sorted(g[0] for g in got_w) != sorted(e[0] for e in exp_w):
@@ -255,7 +293,7 @@ def eval_case(ctx, case):
         el = sorted((t, l) for t, l in exp_w if l is not None)
         if not files and gl != el:
             ctx.violation("warning:line", f"[myst.header] warning lines {gl}, headings are at {el}", case, {**detail, "stream": wtext})
-    nmsg = sum(1 for sm in doc.findall(nodes.system_message) if "[myst.header]" in sm.astext())
+    nmsg = sum(1 for sm in doc.findall(nodes.system_message) if "[myst.header]" in sm.astext() and not (sm.get("line") in tb_lines and str(sm.get("source", "")).endswith("doc.md")))
     if nmsg != len(exp_warns):
         ctx.violation("warning:node-count", f"{nmsg} [myst.header] system_message nodes, model {len(exp_warns)}", case, detail)
     other = [w for w in drive.split_warnings(wtext) if not HDR.search(w["msg"])]
@@ -306,6 +344,8 @@ def run_shard(ctx):
                 items.append(["h", L, R.choice(["atx", "setext"]) if L <= 2 else "atx"])
             elif x < 0.65:
                 items.append(["c", R.choice(CONTAINERS), R.randint(1, 6), R.random() < 0.5])
+            elif x < 0.72:
+                items.append(["t", [R.randint(1, 6) for _ in range(R.randint(1, 3))]])
             elif x < 0.8:
                 items.append(["p"])
             elif x < 0.92:
